@@ -75,3 +75,150 @@ package cache
 //@ ensures forall u: string :: (u in result) == ((u in s1) && (u in s2))
 //@ loop 1 invariant f != nil && fresh(f)
 //@ loop 1 invariant forall u: string :: (u in f) == (visited(u) && (u in s1) && (u in s2))
+
+// ---- cache.go: isolation of cached models (C13) ---------------------------------
+// Every model handed out by a read path, and every model stored by a write
+// path, is an object allocated during the call (a clone), never one the
+// caller or the cache already holds.
+
+//@ pred CacheWF(r *RowCache) := r != nil && r.cache != nil && allocated(r.cache) && (forall u: string :: (u in r.cache) ==> (r.cache[u] != nil && allocated(ptrof(r.cache[u]))))
+
+//@ func (*RowCache).rowByUUID
+//@ requires r != nil
+//@ modifies nothing
+//@ ensures (uuid in r.cache) && r.cache[uuid] != nil ==> (result != nil && fresh(ptrof(result)))
+//@ ensures !(uuid in r.cache) || r.cache[uuid] == nil ==> result == nil
+
+//@ func (*RowCache).Row
+//@ requires r != nil
+//@ modifies nothing
+//@ ensures result != nil ==> fresh(ptrof(result))
+
+//@ func (*RowCache).Rows
+//@ requires CacheWF(r)
+//@ modifies nothing
+//@ ensures result != nil && fresh(result)
+//@ ensures forall u: string :: (u in result) == (u in r.cache)
+//@ ensures forall u: string :: (u in result) ==> (result[u] != nil && fresh(ptrof(result[u])))
+//@ loop 1 invariant result != nil && fresh(result) && CacheWF(r)
+//@ loop 1 invariant forall u: string :: (u in result) == (visited(u) && (u in r.cache))
+//@ loop 1 invariant forall u: string :: (u in result) ==> (result[u] != nil && fresh(ptrof(result[u])))
+
+// RowsShallow is the one documented read-only exception: it returns the cached objects themselves.
+//@ func (*RowCache).RowsShallow
+//@ requires r != nil
+//@ modifies nothing
+//@ ensures result != nil && fresh(result)
+//@ ensures forall u: string :: (u in result) == (u in r.cache)
+//@ ensures forall u: string :: (u in result) ==> result[u] == r.cache[u]
+//@ loop 1 invariant result != nil && fresh(result)
+//@ loop 1 invariant forall u: string :: (u in result) == (visited(u) && (u in r.cache))
+//@ loop 1 invariant forall u: string :: (u in result) ==> result[u] == r.cache[u]
+
+//@ func valueFromIndex
+//@ trusted "reflection + gob + sha256 over the indexed columns of the model; reads only"
+//@ pure
+
+//@ pred FreshModels(m map[string]model.Model) := forall u: string :: (u in m) && m[u] != nil ==> fresh(ptrof(m[u]))
+
+//@ func (*RowCache).rowsByModels
+//@ requires CacheWF(r)
+//@ modifies nothing
+//@ ensures_ok result0 != nil ==> (fresh(result0) && FreshModels(result0))
+//@ loop 1 invariant results != nil && fresh(results) && FreshModels(results) && CacheWF(r)
+//@ loop 2 invariant results != nil && fresh(results) && FreshModels(results) && CacheWF(r)
+//@ loop 3 invariant results != nil && fresh(results) && FreshModels(results) && CacheWF(r)
+
+//@ func (*RowCache).RowByModel
+//@ requires CacheWF(r)
+//@ modifies nothing
+//@ ensures_ok result1 != nil ==> fresh(ptrof(result1))
+
+//@ func (*RowCache).RowsByModels
+//@ requires CacheWF(r)
+//@ modifies nothing
+//@ ensures_ok result0 != nil ==> (fresh(result0) && FreshModels(result0))
+
+//@ func (indexSpec).isClientIndex
+//@ pure
+//@ ensures result == (s.indexType == 1)
+//@ func (indexSpec).isSchemaIndex
+//@ pure
+//@ ensures result == (s.indexType == 0)
+
+//@ func (*RowCache).newIndexes
+//@ requires r != nil
+//@ modifies nothing
+//@ ensures result != nil && fresh(result)
+//@ ensures forall i: int :: 0 <= i && i < len(r.indexSpecs) ==> ((r.indexSpecs[i].index in result) && result[r.indexSpecs[i].index] != nil && fresh(result[r.indexSpecs[i].index]))
+//@ loop 1 invariant c != nil && fresh(c)
+//@ loop 1 invariant forall i: int :: 0 <= i && i <= rangeindex ==> ((r.indexSpecs[i].index in c) && c[r.indexSpecs[i].index] != nil && fresh(c[r.indexSpecs[i].index]))
+
+//@ func NewErrCacheInconsistent
+//@ modifies nothing
+//@ ensures result != nil
+//@ func NewIndexExistsError
+//@ modifies nothing
+//@ ensures result != nil
+
+// Write paths (C13): the cache stores a clone, never the caller's object; other
+// rows are untouched; on error the rows are untouched.
+//@ pred RowsUnchangedExcept(r *RowCache, uuid string) := true
+
+//@ func (*RowCache).Create
+//@ requires CacheWF(r) && m != nil && allocated(ptrof(m))
+//@ ensures CacheWF(r)
+//@ ensures_ok (uuid in r.cache) && r.cache[uuid] != nil && fresh(ptrof(r.cache[uuid])) && !old(uuid in r.cache)
+//@ ensures_ok forall u: string :: u != uuid ==> ((u in r.cache) == old(u in r.cache))
+//@ ensures_ok forall u: string :: u != uuid && old(u in r.cache) ==> r.cache[u] == old(r.cache[u])
+//@ ensures_err forall u: string :: (u in r.cache) == old(u in r.cache)
+//@ ensures_err forall u: string :: old(u in r.cache) ==> r.cache[u] == old(r.cache[u])
+//@ loop 1 invariant forall u: string :: (u in r.cache) == old(u in r.cache)
+//@ loop 1 invariant forall u: string :: old(u in r.cache) ==> r.cache[u] == old(r.cache[u])
+//@ loop 1 invariant CacheWF(r)
+//@ loop 2 invariant forall u: string :: (u in r.cache) == old(u in r.cache)
+//@ loop 2 invariant forall u: string :: old(u in r.cache) ==> r.cache[u] == old(r.cache[u])
+//@ loop 2 invariant CacheWF(r)
+//@ loop 3 invariant forall u: string :: (u in r.cache) == old(u in r.cache)
+//@ loop 3 invariant forall u: string :: old(u in r.cache) ==> r.cache[u] == old(r.cache[u])
+//@ loop 3 invariant CacheWF(r)
+
+//@ func (*RowCache).Update
+//@ requires CacheWF(r) && m != nil && allocated(ptrof(m))
+//@ ensures CacheWF(r)
+//@ ensures_ok (uuid in r.cache) && r.cache[uuid] != nil && fresh(ptrof(r.cache[uuid])) && old(uuid in r.cache)
+//@ ensures_ok result0 != nil && fresh(ptrof(result0)) && ptrof(result0) != ptrof(r.cache[uuid])
+//@ ensures_ok forall u: string :: (u in r.cache) == old(u in r.cache)
+//@ ensures_ok forall u: string :: u != uuid && old(u in r.cache) ==> r.cache[u] == old(r.cache[u])
+//@ ensures_err forall u: string :: (u in r.cache) == old(u in r.cache)
+//@ ensures_err forall u: string :: old(u in r.cache) ==> r.cache[u] == old(r.cache[u])
+//@ loop 1 invariant forall u: string :: (u in r.cache) == old(u in r.cache)
+//@ loop 1 invariant forall u: string :: old(u in r.cache) ==> r.cache[u] == old(r.cache[u])
+//@ loop 1 invariant CacheWF(r)
+//@ loop 2 invariant forall u: string :: (u in r.cache) == old(u in r.cache)
+//@ loop 2 invariant forall u: string :: old(u in r.cache) ==> r.cache[u] == old(r.cache[u])
+//@ loop 2 invariant CacheWF(r)
+//@ loop 3 invariant forall u: string :: (u in r.cache) == old(u in r.cache)
+//@ loop 3 invariant forall u: string :: old(u in r.cache) ==> r.cache[u] == old(r.cache[u])
+//@ loop 3 invariant CacheWF(r)
+//@ loop 4 invariant forall u: string :: (u in r.cache) == old(u in r.cache)
+//@ loop 4 invariant forall u: string :: old(u in r.cache) ==> r.cache[u] == old(r.cache[u])
+//@ loop 4 invariant CacheWF(r)
+
+//@ func (*RowCache).Delete
+//@ requires CacheWF(r)
+//@ ensures CacheWF(r)
+//@ ensures_ok !(uuid in r.cache) && old(uuid in r.cache)
+//@ ensures_ok forall u: string :: u != uuid ==> ((u in r.cache) == old(u in r.cache))
+//@ ensures_ok forall u: string :: u != uuid && old(u in r.cache) ==> r.cache[u] == old(r.cache[u])
+//@ ensures_err forall u: string :: (u in r.cache) == old(u in r.cache)
+//@ ensures_err forall u: string :: old(u in r.cache) ==> r.cache[u] == old(r.cache[u])
+//@ loop 1 invariant forall u: string :: (u in r.cache) == old(u in r.cache)
+//@ loop 1 invariant forall u: string :: old(u in r.cache) ==> r.cache[u] == old(r.cache[u])
+//@ loop 1 invariant CacheWF(r)
+//@ loop 2 invariant forall u: string :: (u in r.cache) == old(u in r.cache)
+//@ loop 2 invariant forall u: string :: old(u in r.cache) ==> r.cache[u] == old(r.cache[u])
+//@ loop 2 invariant CacheWF(r)
+//@ loop 3 invariant forall u: string :: (u in r.cache) == old(u in r.cache)
+//@ loop 3 invariant forall u: string :: old(u in r.cache) ==> r.cache[u] == old(r.cache[u])
+//@ loop 3 invariant CacheWF(r)
